@@ -73,7 +73,17 @@ def pool_items():
     snippet_errs = [e for e in c10.ERRS if e in c10.SNIPPET]
     e_item = st.tuples(gen_prog.programs(max_stmts=15), st.sampled_from(snippet_errs), st.integers(0, 1000)).map(mk_err)
     s_item = decomp.input_strategy(w1=1, w2=1, w3=3).map(lambda c: {"kind": "ssb", "case": c})
-    return st.tuples(p_item, s_item, e_item, st.lists(st.one_of(p_item, s_item, s_item, e_item), min_size=0, max_size=3)).map(lambda t: [t[0], t[1], t[2]] + t[3])
+
+    def macro_pair(p):
+        """a program with macros and the same routines WITHOUT the macro definitions (alone it is rejected:
+        unknown macro) - state leaking from one compile() to the next through a reused compiler shows here"""
+        from vf import render
+
+        q = {"imports": [], "macros": [], "routines": p["routines"]}
+        return [{"kind": "program", "prog": p}, {"kind": "text", "text": render.render(q).text}]
+
+    pair = st.one_of(st.just([]), gen_macro.macro_programs(single_file=True, max_stmts=20).map(macro_pair))
+    return st.tuples(p_item, s_item, e_item, st.lists(st.one_of(p_item, s_item, s_item, e_item), min_size=0, max_size=3), pair).map(lambda t: [t[0], t[1], t[2]] + t[3] + t[4])
 
 
 class HistoryRunner:
